@@ -17,6 +17,8 @@ TRUSTED_COMMON = [
     "strings/bytes helpers called by the library",
 ]
 TRUSTED_EXTRA = {
+    "C14": ["translator tools/asm2prog.py (T2) and the x86-64 instruction semantics of coq/theories/X86.v (modelled, validated under C13); "
+            "tools/mkv3.py only writes proof scripts, which Coq re-checks"],
     "C13": ["translator tools/asm2prog.py (T2: Plan-9 amd64 assembly -> instruction lists, regenerated every run)",
             "modelled, not verified: the x86-64 instruction semantics of coq/theories/X86.v (registers < 2^64 with wrap = Fault, "
             "flags known/undefined, 32-lane vector registers, page-granular readable memory around the argument, single result "
@@ -28,7 +30,7 @@ META = {p: {"level": "proof"} for p in PROPS}
 META["C05"]["level"] = "other"
 META["C18"]["level"] = "other"
 META["C13"]["level"] = "proof"
-META["C14"]["level"] = "other"
+META["C14"]["level"] = "proof"
 
 
 def load_known():
